@@ -45,8 +45,9 @@ ASSUMPTIONS = [
     "the order in which make_patch finally sorts the commands is C08's subject: pipeline results are compared as "
     "sorted row lists, and the theorems hold for every permutation of the emitted commands",
     "vlan_diff is modelled with common.default_diff as a parameter (its items are taken from the real call)",
-    "a port that leaves its port-channel: cisco.iface.diff hides the member's own lines (the model is given the empty old "
-    "side, recorded finding F11d); nexus.iface.diff re-reads them (the model is given the old lines)",
+    "a port that leaves its port-channel: which rows of a port-channel member reach the VLAN logic is modelled (cLeafIface: "
+    "cisco.iface.diff hides a member's switchport rows - recorded finding F11d, theorem C11_cisco_leaves_port_channel_false - "
+    "nexus.iface.diff keeps them); the other commands the interface logics re-send are not VLAN commands and are left out",
     "cisco VLAN blocks (vlan N with children) are modelled and compared, the theorems cover leaf rows only; the "
     "iteration order of Python's int set in cisco/vlandb.py:37 is canonicalised (block-yield runs are sorted)",
 ]
@@ -685,12 +686,13 @@ def requests(case):
         return [dict(op="c11.h_pipe", mode=mode, rev=rev.format("1"), old=case["old"], new=case["new"])]
     if k == "cp":
         (_block, _p, mode, _noise) = C_SCEN[case["scen"]]
-        old = case["old"]
-        if case.get("leave_lag") and "Nexus" not in case["hw"]:
-            # cisco.iface.diff (cisco/iface.py:5-10, 39-44) deletes the lines of a port-channel member from the side
-            # that has `channel-group` before the rows reach the VLAN logic: the logic sees an empty old side (F11d)
-            old = []
-        return [dict(op="c11.c_pipe", mode=mode, catalyst=case["cat"], old=old, new=case["new"])]
+        rq = dict(op="c11.c_pipe", mode=mode, catalyst=case["cat"], old=case["old"], new=case["new"])
+        if _block is not None:
+            # interface blocks: the vendor's interface diff logic filters the rows of a port-channel member before they
+            # reach the VLAN logic (Model/Vlan.lean, cLeafIface; cisco/iface.py:5-10,39-66, nexus/iface.py:8-12,45-66)
+            rq.update(iface="nexus" if "Nexus" in case["hw"] else "cisco", old_member=bool(case.get("leave_lag")),
+                      new_member=False)
+        return [rq]
     if k == "coll":
         return [dict(op="c11.collapse", vlans=case["vlans"], sep=case["sep"], tiny=case["tiny"],
                      chunk_len=case["chunk_len"])]
